@@ -12,6 +12,7 @@ mod ops_c04;
 mod ops_acc;
 mod ops_codec;
 mod ops_frame;
+mod ops_io;
 mod ops_schema;
 mod schema;
 mod prng;
@@ -45,6 +46,9 @@ fn eval_line(ctx: &mut Ctx, line: &str) -> String {
     };
     let args = &xs[1..];
     if let Some(a) = ops_codec::eval(ctx, &op, args) {
+        return a;
+    }
+    if let Some(a) = ops_io::eval(ctx, &op, args) {
         return a;
     }
     if let Some(a) = ops_maxsize::eval(ctx, &op, args) {
@@ -84,6 +88,7 @@ fn main() {
                 "C16" => ops_schema::gen_c16(&mut r, thorough, &mut out),
                 "C15" => ops_schema::gen_c15(&mut r, thorough, &mut out),
                 "C19" => ops_schema::gen_c19(&mut r, thorough, &mut out),
+                "C11" => ops_io::gen_c11(&mut r, thorough, &mut out),
                 "C12" => ops_maxsize::gen_c12(&mut r, thorough, &mut out),
                 "C13" => ops_maxsize::gen_c13(&mut r, thorough, &mut out),
                 "C04" => ops_c04::gen_c04(&mut r, thorough, &mut out),
@@ -93,6 +98,7 @@ fn main() {
                 "C06" => ops_frame::gen_c06(&mut r, thorough, &mut out),
                 "C07" => ops_frame::gen_c07(&mut r, thorough, &mut out),
                 "C10" => ops_frame::gen_c10(&mut r, thorough, &mut out),
+                "C20" => ops_frame::gen_c20(&mut r, thorough, &mut out),
                 _ => {
                     eprintln!("unknown property {}", prop);
                     std::process::exit(2);
